@@ -602,7 +602,9 @@ M('main-loop-condition-inverted', ['C08'], F, "                            while
 M('seed5-C04-poll-time-before-wait', ['C04'], Z, r"(            ret = False\n)(\n            while True:  # this loop only exists.*?)                t         = time_ns\(\) // 1_000_000  # ns -> ms\n", r"\1            t   = time_ns() // 1_000_000\n\2", ['C04.R5'], regex=True)
 M('recv-D16-shape', ['C01'], Z, "        if min_recv_id > self.prev_id + 1:  # the caller moved on past", "        if False and min_recv_id > self.prev_id + 1:  # the caller moved on past", ['C01.R9'])
 M('vresize-D17-shape', ['C17'], VI, "newsize = (width, max(1, int(h * width / w))) if w > width else (w, h)", "newsize = (width, max(1, int(h * width / w)))", ['C17.R8'])
-M('vresize-general-uses-max', ['C17'], VI, "newsize = (max(1, int(w * (s := min(width / w, height / h)))), max(1, int(h * s)))", "newsize = (max(1, int(w * (s := max(width / w, height / h)))), max(1, int(h * s)))", ['C17.R8'])
+M('vresize-general-uses-max', ['C17'], VI, "newsize = (width, max(1, h * width // w)) if width * h <= height * w else (max(1, w * height // h), height)  #", "newsize = (width, max(1, h * width // w)) if width * h >= height * w else (max(1, w * height // h), height)  #", ['C17.R8'])
+M('vresize-D76-shape-float-product', ['C17'], VI, "newsize = (width, max(1, h * width // w)) if width * h <= height * w else (max(1, w * height // h), height)  #", "newsize = (max(1, int(w * (s := min(width / w, height / h)))), max(1, int(h * s)))  #", ['C17.R8'])
+M('vresize-arms-swapped', ['C17'], VI, "newsize = (width, max(1, h * width // w)) if width * h <= height * w else (max(1, w * height // h), height)  #", "newsize = (max(1, w * height // h), height) if width * h <= height * w else (width, max(1, h * width // w))  #", ['C17.R8'])
 M('vmaxsize-aspect-inverted', ['C17'], VI, "            aspect = aspect != '+'", "            aspect = aspect == '+'", ['C17.R6', 'C17.R8'])
 M('box-x-scaled-by-height', ['C17'], UT, "        x0 = max(0, min(w, int(w * x0)))  # the box in pixels, clipped to the image, far edges exclusive", "        x0 = max(0, min(w, int(h * x0)))", ['C17.R4'])
 M('box-D49-shape-inclusive-rectangle', ['C17'], UT, "        image[y0 : y1, x0 : x1] = c  # works on any writable array, contiguous or not\n\n        return Frame(image, frame)", "        return Frame(cv2.rectangle(image, (int(w * xform.x), int(h * xform.y)), (int(w * (xform.x + xform.width)), int(h * (xform.y + xform.height))), c, -1), frame)", ['C17.R4'])
